@@ -324,9 +324,9 @@ func MerklizeOpts() []merklize.MerklizeOption {
 // NewCredential builds a KYCAgeCredential (kyc-v3 context, merklized) issued by issuerDID.
 func NewCredential(rng *rand.Rand, issuerDID, subjectDID string, revNonce uint64) map[string]any {
 	return map[string]any{
-		"id": fmt.Sprintf("urn:uuid:%08x-a00e-11ee-8f57-%012x", rng.Uint32(), rng.Int63n(1<<47)),
-		"@context": []any{ctxload.URLCredentialsV1, ctxload.URLIden3Proofs, ctxload.URLKYCv3},
-		"type":     []any{"VerifiableCredential", "KYCAgeCredential"},
+		"id":             fmt.Sprintf("urn:uuid:%08x-a00e-11ee-8f57-%012x", rng.Uint32(), rng.Int63n(1<<47)),
+		"@context":       []any{ctxload.URLCredentialsV1, ctxload.URLIden3Proofs, ctxload.URLKYCv3},
+		"type":           []any{"VerifiableCredential", "KYCAgeCredential"},
 		"expirationDate": fmt.Sprintf("20%02d-03-21T21:14:48+02:00", 30+rng.Intn(60)),
 		"issuanceDate":   fmt.Sprintf("2023-12-%02dT16:35:46.737547+02:00", 1+rng.Intn(28)),
 		"credentialSubject": map[string]any{
